@@ -2,6 +2,7 @@ package executor
 
 import (
 	"context"
+	"sync"
 
 	"github.com/vektah/gqlparser/v2/ast"
 	"github.com/vektah/gqlparser/v2/gqlerror"
@@ -14,6 +15,8 @@ import (
 )
 
 const parserTokenNoLimit = 0
+
+var disableSuggestionOnce sync.Once
 
 // Executor executes graphql queries against a schema.
 type Executor struct {
@@ -225,11 +228,14 @@ func (e *Executor) parseQuery(
 
 	// swap out the FieldsOnCorrectType rule with one that doesn't provide suggestions
 	if e.disableSuggestion {
-		validator.RemoveRule("FieldsOnCorrectType")
-
-		rule := rules.FieldsOnCorrectTypeRuleWithoutSuggestions
-		// rule may already have been added
-		validator.ReplaceRule(rule.Name, rule.RuleFunc)
+		// gqlparser's rule set is process-global and not safe for concurrent changes:
+		// swap the rule once, and add the replacement before removing the original so
+		// that a concurrent Validate never runs without a field-existence rule.
+		disableSuggestionOnce.Do(func() {
+			rule := rules.FieldsOnCorrectTypeRuleWithoutSuggestions
+			validator.ReplaceRule(rule.Name, rule.RuleFunc)
+			validator.RemoveRule("FieldsOnCorrectType")
+		})
 	}
 
 	listErr := validator.Validate(e.es.Schema(), doc)
